@@ -386,6 +386,14 @@ func (encryptor *QueryDataEncryptor) OnQuery(ctx context.Context, query OnQueryO
 
 // OnBind process bound values for prepared statement based on TableSchemaStore.
 func (encryptor *QueryDataEncryptor) OnBind(ctx context.Context, statement sqlparser.Statement, values []decryptor.BoundValue) ([]decryptor.BoundValue, bool, error) {
+	// The statement that is executed decides by which settings the columns of its result are processed. It may
+	// have been prepared any number of statements ago: the settings left by the last statement text are not its own.
+	encryptor.querySelectSettings = nil
+	if selectStatement, ok := statement.(*sqlparser.Select); ok {
+		if _, err := encryptor.onSelect(ctx, selectStatement); err != nil {
+			return values, false, err
+		}
+	}
 	if encryptor.encryptor == nil {
 		return values, false, nil
 	}
